@@ -333,6 +333,18 @@ func Run(c *core.Check) {
 			k.entry("probe.boundary", n, "api", true, "")
 		}
 	}
+	// replaced elements and form controls render even when they are empty: the white space on
+	// both sides of an EMPTY one is significant (the probe above always puts text inside)
+	for _, n := range []string{"audio controls", "button", "canvas", "embed", "img", "input", "meter", "object data=x", "progress", "video src=x", "video controls"} {
+		name := strings.Fields(n)[0]
+		doc := "<div>a <" + n + "></" + name + "> c</div>"
+		if name == "embed" || name == "img" || name == "input" {
+			doc = "<div>a <" + n + "> c</div>"
+		}
+		out, err := mu.String("text/html", doc)
+		lost := err == nil && (strings.Contains(out, "a<"+name) || !strings.Contains(out, "> c"))
+		k.entry("probe.empty-replaced-element", n, "api", !lost, fmt.Sprintf("%q → %q: white space next to the empty replaced element <%s> is removed", doc, out, name))
+	}
 	c.Sample(map[string]any{"table": "html.EntitiesMap", "entry": "AElig → " + string(mhtml.EntitiesMap["AElig"])})
 	c.Sample(map[string]any{"table": "css.ShortenColorHex", "entry": "#000080 → " + string(css.ShortenColorHex["#000080"])})
 }
